@@ -11,11 +11,16 @@
 (* passes the guard and then fails (inconsistent arguments, missing file,   *)
 (* a file that is not NetCDF) is TryFail(t): no store results; the code has  *)
 (* recorded t as owner before the failure and keeps it.                      *)
+(* Threads are told apart by IDENTITY (the elements of `Threads`): what a    *)
+(* thread is called carries no meaning, two live threads may share a name    *)
+(* (ThreadNaming; the harness runs every second schedule and script with all *)
+(* threads under one name).                                                  *)
 (***************************************************************************)
 EXTENDS Naturals, FiniteSets, Sequences
 
 CONSTANTS Threads, MaxCalls
 None == 0
+ThreadNaming == {"distinct", "shared"}
 ASSUME None \notin Threads
 
 VARIABLES owner,    \* thread id allowed to create stores, or None
